@@ -865,7 +865,7 @@ def fire (s : S) : TK → S
 
 /-- advance the virtual clock by `dt` time units, firing due timers in deadline order -/
 def advanceTo (target : Nat) : Nat → S → S
-  | 0, s => s   -- out of fuel: the clock is NOT moved (never reached with the fuel `advance` provides)
+  | 0, s => s   -- out of fuel: the clock is NOT moved (not reached in the compared runs; a sub-second ping interval can get here)
   | fuel + 1, s =>
     match nextTimer s with
     | some (k, d, _) =>
